@@ -339,6 +339,59 @@ fn op_region<M: GuestMemory>(h: &mut H, mem: &M, r: &mut Rng) {
         2 => l as u64 + 1 + r.below(5),
         _ => r.below(l as u64 + 1),
     };
+    if r.chance(1, 3) {
+        // region-level stream transfers (up-to forms cap at the end of the region; the count may be
+        // anything, including values whose sum with the offset overflows)
+        let rem = if (off as u128) < l { (l - off as u128) as usize } else { 0 };
+        let count = match r.below(8) {
+            0 => usize::MAX,
+            1 => (usize::MAX - off as usize).saturating_add(1),
+            2 => usize::MAX - off as usize,
+            3 => 1usize << 63,
+            4 => rem,
+            5 => rem + 1,
+            _ => 1 + r.usize_below(20),
+        };
+        let reading = r.chance(1, 2);
+        let cap = rem.min(48);
+        h.trace.push(format!("region{}.{}(count {:#x}, off {})", i, if reading { "read_volatile_from" } else { "write_volatile_to" }, count, off));
+        if reading {
+            let src = r.bytes(cap.min(count));
+            let mut stream = &src[..];
+            let res = reg.read_volatile_from(MemoryRegionAddress(off), &mut stream, count);
+            let want = rem.min(count).min(src.len());
+            match &res {
+                Ok(k) if *k == want && (rem > 0 || want == 0) => h.flat.write(s + off as u128, &src[..want]),
+                Err(_) if rem == 0 => {}
+                _ => {
+                    h.fail("region.read_volatile_from/result", jobj! {"region" => i, "off" => off, "count" => count, "region_len" => l as u64, "want" => want, "got" => J::s(match &res { Ok(k) => format!("Ok({})", k), Err(e) => gerr(e) })});
+                    return;
+                }
+            }
+        } else {
+            // a sink with room for `cap` bytes only, so that huge counts stay cheap
+            let mut room = vec![0u8; cap];
+            let mut dst = &mut room[..];
+            let res = reg.write_volatile_to(MemoryRegionAddress(off), &mut dst, count);
+            let left = dst.len();
+            let want = rem.min(count).min(cap);
+            match &res {
+                Ok(k) if *k == want && cap - left == want => {
+                    if room[..want] != h.flat.read(s + off as u128, want)[..] {
+                        h.fail("region.write_volatile_to/sink-data", jobj! {"region" => i, "off" => off, "count" => count});
+                    }
+                }
+                Err(_) if rem == 0 || want == 0 => {}
+                _ => {
+                    h.fail("region.write_volatile_to/result", jobj! {"region" => i, "off" => off, "count" => count, "region_len" => l as u64, "want" => want, "got" => J::s(match &res { Ok(k) => format!("Ok({})", k), Err(e) => gerr(e) })});
+                    return;
+                }
+            }
+        }
+        out::key(&format!("region.{}|{}|{}|{}", if reading { "read_volatile_from" } else { "write_volatile_to" }, if rem == 0 { "beyond" } else if off == 0 { "off0" } else { "off>0" }, if count > usize::MAX - off as usize { "count-overflows" } else if count > rem { "count>rem" } else { "count<=rem" }, h.backend), true);
+        h.frame("region-stream");
+        return;
+    }
     let len = 1 + r.usize_below(20);
     let n = if (off as u128) < l { (len as u128).min(l - off as u128) as usize } else { 0 };
     let write = r.chance(1, 2);
